@@ -11,6 +11,12 @@ RULE = ("exhaustive: all 256 bytes through bytes.decode('bk'), all 0x110000 code
         "generated: seeded strings mixing encodable and unencodable characters, result (bytes or error span) compared; "
         "end to end: .ascii/.asciz/'c/\"cc through the assembler. non-trivial = distinct string containing >=1 non-ASCII "
         "or unencodable character, or a distinct table entry")
+LEVEL_TEXT = ("Coq theorems over the DECODING_TABLE regenerated from bk_encoding.py on every run: 256-entry bijection, ASCII and KOI8-R "
+              "agreement, refusal of every code point outside the table (general lemma over unbounded N), error span; the hand model of "
+              "encode/decode is tied by an exhaustive sweep of all 256 bytes and all 0x110000 code points plus generated strings.")
+LEVEL_NOTE = ("Trusted: Coq kernel + vm_compute, tools/translate.py, the sweep harness, Spec/Koi8.v, CPython codecs machinery. "
+              "Print Assumptions: closed under the global context for every theorem.")
+TECHNIQUE = "Coq proof over regenerated table + exhaustive model/implementation correspondence"
 ASSUME = ["Python's str/bytes and codec registry behave as documented", "KOI8-R table in Spec/Koi8.v is the standard's"]
 
 
